@@ -544,7 +544,7 @@ ENCODE_C = "libjwt/jwt-encode.c"
 ENC_UNIT = U("C10.jwt_encode", "jwt_encode -> write_js (libjwt/jwt-encode.c)", ENCODE_C, "contracts/jwt_encode_c.h",
     "jwt_t *j; char *o; char **po = nondet_bool() ? NULL : &o; jwt_encode(j, po);", "jwt_encode/contract_C10_jwt_encode",
     stubs=["stubs/libc.c", "stubs/ghost.c", "stubs/alloc.c", "stubs/jansson.c", "stubs/b64_shape.c", "stubs/encode_env.c"],
-    defines=["VERIF_TU_JWT_ENCODE", "VERIF_NO_STRCPY", "VERIF_NO_STRLEN", "VJ_MAX_STR=0x1000000"], flags=["--conversion-check"],
+    defines=["VERIF_TU_JWT_ENCODE", "VERIF_NO_STRCPY", "VERIF_NO_STRLEN", "VJ_MAX_STR=0x200000000UL"], flags=["--conversion-check"], replay={"driver": "replay/r_C10_long.c", "timeout": 900},
     expect=["contract_C10_jwt_encode\\.postcondition\\.3", "strcat\\.assertion", "verif_sprintf3\\.assertion", "jwt_sign\\.assertion"], timeout=900)
 HEAD_UNIT = U("C10.jwt_head_setup", "jwt_head_setup (libjwt/jwt-encode.c)", ENCODE_C, "contracts/jwt_encode_c.h",
     "jwt_t *j; jwt_head_setup(j);", "jwt_head_setup/contract_C10_jwt_head_setup",
